@@ -2,7 +2,6 @@
 """
 This module provides the Base Section class.
 """
-import operator
 import uuid
 import warnings
 
@@ -607,7 +606,7 @@ class BaseSection(base.Sectionable):
         :param obj: Section or Property object.
         """
         # Refuse a position that is not an integer before anything is changed.
-        position = operator.index(position)
+        position = base.list_position(position, len(self._sections) + len(self._props))
 
         if isinstance(obj, BaseSection):
             if obj.name in self.sections:
@@ -848,7 +847,7 @@ class BaseSection(base.Sectionable):
     def _reorder(self, childlist, new_index):
         lst = childlist
         # Refuse a position that is not an integer before anything is changed.
-        new_index = operator.index(new_index)
+        new_index = base.list_position(new_index, len(lst))
         old_index = lst.index(self)
 
         # Take the object out first, then insert it at the new position: this is also
